@@ -95,7 +95,12 @@ Definition f2_wal : list N := concat [
 Definition f2_last : l0hdr := mkL0 568 536 100 200 2 [(2, 7)].
 
 Lemma f2_verify_continues_incrementally :
-  verify 512 2 f2_last false (Some f2_wal) (Some 7) = VOk (mkInfo 32 101 999 2 false false).
+  verify_gen false 512 2 f2_last false 0 (Some f2_wal) (Some 7) = VOk (mkInfo 32 101 999 2 false false).
+Proof. vm_compute. reflexivity. Qed.
+
+(** ... and with the fresh-session rule (the repair) the same input is a snapshot *)
+Lemma f2_verify_now_snapshots :
+  verify 512 2 f2_last false 0 (Some f2_wal) (Some 7) = VOk (mkInfo 32 101 999 2 true false).
 Proof. vm_compute. reflexivity. Qed.
 
 Lemma f2_unsynced_committed_frame_of_old_generation :
@@ -112,7 +117,7 @@ Proof. eexists. vm_compute. repeat split; reflexivity. Qed.
 
 Lemma c04_restart_shorter_refuted_lemma :
   exists ps pos last w fd info r,
-    verify ps pos last false (Some w) fd = VOk info /\ i_snap info = false /\
+    verify_gen false ps pos last false 0 (Some w) fd = VOk info /\ i_snap info = false /\
     i_offset info = WALHeaderSize /\
     new_reader_with_offset w (l_off last + l_size last) (l_s1 last) (l_s2 last) = OffOk r /\
     pr_map (page_map (wal_frames ps w) r 0) <> [].
